@@ -93,6 +93,11 @@ def alookup {α β : Type} [DecidableEq α] (k : α) : List (α × β) → Optio
 def aerase {α β : Type} [DecidableEq α] (k : α) (l : List (α × β)) : List (α × β) :=
   l.filter (fun p => p.1 ≠ k)
 
+/-- update in place (the Go code mutates the `msgBatch` object its map entries point to) -/
+def aset {α β : Type} [DecidableEq α] (k : α) (v : β) : List (α × β) → List (α × β)
+  | [] => []
+  | (k', w) :: t => if k' = k then (k, v) :: t else (k', w) :: aset k v t
+
 /-- The loop over `msgs` in `ioConn.Read` that builds the `msgBatch`.
 `trackAll = false`: repaired (`req.IsCall()`); `true`: every `*Request`. -/
 def trackLoop (trackAll : Bool) : List Msg → Batch → Except RErr Batch
@@ -183,7 +188,7 @@ def opWrite (s : IOState) (msg : Msg) : IOState × WriteOut :=
               | some ms => (s', .array (ms.map encodeMsg))
               | none => ({ s' with panicked := true }, .panic)   -- nil *Response in marshalMessages
           else
-            ({ s with byId := byId', heap := (aerase h s.heap) ++ [(h, b')] }, .nothing)
+            ({ s with byId := byId', heap := aset h b' s.heap }, .nothing)
     | none => (s, .single (encodeMsg msg))
   | .request .. =>
     if s.outBuf.length < s.outCap then
@@ -194,15 +199,15 @@ def opWrite (s : IOState) (msg : Msg) : IOState × WriteOut :=
 
 /-! ## The abstract specification of batch replies (what C02 asks for)
 
-Per accepted batch: the ids of its calls, in order, and the responses received so far.
-A response to a call of an open batch is collected; the response that answers the last open call
-of its batch releases one array holding exactly one response per call, in call order.  Everything
-else is written at once on its own.  Notifications and responses inside a batch are not counted. -/
+Per accepted batch: one slot per CALL of the batch, in batch order, holding the call's id and its
+response once it is given.  A batch is accepted iff its call ids are pairwise distinct and none of
+them is still unanswered in an open batch.  A response to an unanswered call of an open batch fills
+its slot and nothing is written — unless it fills the last empty slot, in which case one array with
+exactly the batch's responses, one per call, in call order, is written and the batch is closed.
+Everything else is written at once on its own.  Notifications and responses inside a batch have no
+slot: they cannot withhold or break anything. -/
 
-structure SBatch where
-  calls : List Id
-  got : List (Id × Msg)
-deriving Repr, Inhabited
+abbrev Slots := List (Id × Option Msg)
 
 def callIds : List Msg → List Id
   | [] => []
@@ -213,19 +218,42 @@ inductive SOut where
   | nothing | single (m : Msg) | array (ms : List Msg)
 deriving DecidableEq, Repr, Inhabited
 
-def SBatch.pending (b : SBatch) (id : Id) : Bool := b.calls.contains id && (alookup id b.got).isNone
+def slotPending (sl : Slots) (id : Id) : Bool := sl.any (fun p => p.1 = id && p.2.isNone)
 
-def specWrite : List SBatch → Msg → List SBatch × SOut
+def fillSlot (id : Id) (m : Msg) : Slots → Slots
+  | [] => []
+  | (i, r) :: t => if i = id ∧ r = none then (i, some m) :: t else (i, r) :: fillSlot id m t
+
+def slotsComplete (sl : Slots) : Bool := sl.all (fun p => p.2.isSome)
+def slotsMsgs (sl : Slots) : List Msg := sl.filterMap (fun p => p.2)
+
+def specWrite : List Slots → Msg → List Slots × SOut
   | bs, .request id m p => (bs, .single (.request id m p))
   | [], msg => ([], .single msg)
   | b :: bs, msg =>
-    if b.pending msg.id then
-      let got := b.got ++ [(msg.id, msg)]
-      if b.calls.all (fun c => (alookup c got).isSome) then
-        (bs, .array (b.calls.filterMap (fun c => alookup c got)))
-      else ({ b with got := got } :: bs, .nothing)
+    if slotPending b msg.id then
+      let b' := fillSlot msg.id msg b
+      if slotsComplete b' then (bs, .array (slotsMsgs b')) else (b' :: bs, .nothing)
     else
-      let (bs', o) := specWrite bs msg
-      (b :: bs', o)
+      let r := specWrite bs msg
+      (b :: r.1, r.2)
+
+def nodupB : List Id → Bool
+  | [] => true
+  | a :: t => !t.contains a && nodupB t
+
+/-- acceptance of a batch frame whose messages are `msgs` -/
+def specAccept (bs : List Slots) (msgs : List Msg) : Except RErr (List Slots) :=
+  let calls := callIds msgs
+  if !nodupB calls then .error .dupInBatch
+  else if calls.any (fun c => bs.any (fun sl => slotPending sl c)) then .error .seenId
+  else .ok (if calls.isEmpty then bs else bs ++ [calls.map (fun c => (c, none))])
+
+/-- what the writer side shows of an `opWrite` result, as messages -/
+def WriteOut.matches : WriteOut → SOut → Bool
+  | .nothing, .nothing => true
+  | .single v, .single m => v == encodeMsg m
+  | .array vs, .array ms => vs == ms.map encodeMsg
+  | _, _ => false
 
 end Wire
